@@ -3,6 +3,8 @@ package seq
 import (
 	"bufio"
 	"bytes"
+	"crypto/sha256"
+	"encoding/hex"
 	"encoding/json"
 	"fmt"
 	"os"
@@ -221,7 +223,7 @@ type CrashCase struct {
 	RecEvery int   `json:"rec_every,omitempty"` // explore crashes inside recovery for every k-th crash point (0 = never)
 }
 
-type dbState map[string]string // key -> content description ("" never used)
+type dbState map[string]string // key -> sha256 of the content (hex); equal bytes compare equal whoever wrote them
 
 func stateOf(w *World) (dbState, string) {
 	keys, err := w.DB.GetKeys(w.ctx)
@@ -234,7 +236,7 @@ func stateOf(w *World) (dbState, string) {
 		if err != nil {
 			return nil, fmt.Sprintf("key %q is listed by GetKeys but Get fails after recovery: %v", k, err)
 		}
-		st[k] = w.describe(b)
+		st[k] = hashHex(b)
 	}
 	// keys of the program that are not listed must be ErrNotFound
 	for _, k := range w.Case.Keys {
@@ -251,9 +253,26 @@ func stateOf(w *World) (dbState, string) {
 func modelState(w *World) dbState {
 	st := dbState{}
 	for k, v := range w.M.CommittedState() {
-		st[k] = w.describe(model.Bytes(v))
+		st[k] = hashHex(model.Bytes(v))
 	}
 	return st
+}
+
+func hashHex(b []byte) string {
+	h := sha256.Sum256(b)
+	return hex.EncodeToString(h[:])
+}
+
+// describeHash renders a content hash for messages (the description of SOME write with these bytes).
+func (w *World) describeHash(hx string) string {
+	var h [32]byte
+	if b, err := hex.DecodeString(hx); err == nil && len(b) == 32 {
+		copy(h[:], b)
+		if d, ok := w.byHash[h]; ok {
+			return d
+		}
+	}
+	return "content " + hx[:12] + " matching no complete written content"
 }
 
 func sameState(a, b dbState) bool {
@@ -268,7 +287,7 @@ func sameState(a, b dbState) bool {
 	return true
 }
 
-func fmtState(s dbState) string {
+func fmtState(w *World, s dbState) string {
 	var ks []string
 	for k := range s {
 		ks = append(ks, k)
@@ -277,7 +296,7 @@ func fmtState(s dbState) string {
 	var b strings.Builder
 	b.WriteString("{")
 	for _, k := range ks {
-		fmt.Fprintf(&b, "%q: %s; ", k, s[k])
+		fmt.Fprintf(&b, "%q: %s; ", k, w.describeHash(s[k]))
 	}
 	b.WriteString("}")
 	return b.String()
@@ -328,9 +347,9 @@ func judgeCrash(c Case, r *ev.Result, dir string, run childRun, n int64, recAt i
 		w.closeDB()
 		var al []string
 		for _, a := range allowed {
-			al = append(al, fmtState(a))
+			al = append(al, fmtState(w, a))
 		}
-		r.Failf("%s: recovered state %s is none of the allowed states %s", ctx, fmtState(got), strings.Join(al, " or "))
+		r.Failf("%s: recovered state %s is none of the allowed states %s", ctx, fmtState(w, got), strings.Join(al, " or "))
 		return false
 	}
 	// reopening a second time gives the same state
@@ -346,7 +365,7 @@ func judgeCrash(c Case, r *ev.Result, dir string, run childRun, n int64, recAt i
 		return false
 	}
 	if !sameState(got, got2) {
-		r.Failf("%s: state after the first reopen %s differs from the state after the second %s", ctx, fmtState(got), fmtState(got2))
+		r.Failf("%s: state after the first reopen %s differs from the state after the second %s", ctx, fmtState(w, got), fmtState(w, got2))
 		return false
 	}
 	return true
